@@ -134,7 +134,7 @@ func (s *S) Yield(kind, key string) {
 // Run executes tasks under the scheduler inside a synctest bubble. t must be
 // the *testing.T of the process. setup runs inside the bubble before the tasks
 // start (create everything the tasks share there).
-func Run(t *testing.T, dec *Decisions, maxSteps int, logf func(string, ...any), setup func(s *S), tasks []func(s *S)) (res Result) {
+func Run(t *testing.T, dec *Decisions, maxSteps int, logf func(string, ...any), setup func(s *S), tasks []func(s *S), finish func()) (res Result) {
 	if maxSteps <= 0 {
 		maxSteps = 20000
 	}
@@ -268,6 +268,11 @@ func Run(t *testing.T, dec *Decisions, maxSteps int, logf func(string, ...any), 
 		}
 		// wind down: let everything still parked run to completion unscheduled
 		s.abort.Store(true)
+		if finish != nil && len(parked) == 0 && s.Deadlock == "" && !s.CutShort {
+			// still inside the bubble: objects created in it (channels inside
+			// pooled codecs) must not be used from outside
+			finish()
+		}
 		for _, p := range parked {
 			release(p)
 		}
